@@ -53,6 +53,19 @@ def analyse(text):
             for h in e.highlights[:1]:
                 bad.add((h.lineno, h.column))
     nbad_errors = sum(1 for e in errlist if e.name == "BAD_LEXEME")
+    # an escape notice points at the escape: the character at the highlighted place is the one that follows a backslash
+    # (UNKNOWN_ESCAPE) or the `x` of a backslash-x (NO_HEX_DIGITS) -- recomputed from the raw text, splices included
+    for e in errlist:
+        if e.name in ("UNKNOWN_ESCAPE", "NO_HEX_DIGITS") and e.highlights:
+            h = e.highlights[0]
+            before, ch = _raw_before(text, h.lineno, h.column)
+            ok = before is not None and ch != "" and (before.endswith("\\") or before.endswith("??/"))
+            if ok and e.name == "NO_HEX_DIGITS":
+                ok = ch == "x"
+            if not ok:
+                fails.append(("printed", f"printed:{e.name}:not-at-the-escape",
+                              f"{e.name} reported at ({h.lineno}, {h.column}); the raw text there is {ch!r} after {None if before is None else before[-4:]!r}"))
+                break
     if errlist:
         # "the position printed with a diagnostic points at the offending character": what the human-readable report
         # prints for each lexical diagnostic is its earliest highlight (several highlights: the later ones are hints)
@@ -121,6 +134,24 @@ def analyse(text):
                     fails.append(("relex", "relex", f"re-lexing the concatenated token texts {norm!r} gives other tokens"))
     sig = tuple(t.type for t in toks)
     return fails, sig
+
+
+def _raw_before(text, lineno, column):
+    """(raw text of the line before the visual column, raw character at it) -- tab stops every 4 columns."""
+    lines = text.split("\n")
+    if not (1 <= lineno <= len(lines)):
+        return None, None
+    line = lines[lineno - 1]
+    col = 1
+    for i, c in enumerate(line):
+        if col == column:
+            return line[:i], c
+        if col > column:
+            return None, None
+        col = col + (4 - (col - 1) % 4) if c == "\t" else col + 1
+    if col == column:
+        return line, ""
+    return None, None
 
 
 import re as _re
